@@ -4,6 +4,7 @@ From Coq Require Import ZArith QArith Qround List Bool.
 From RV Require Import Base.PyNum Frame.Frame Map.Stacker Map.StackerSpec Map.Rate Map.RateFile Proofs.RateProofs.
 From RV Require Import Formats.Timeline Map.RateWrite Proofs.RateWriteProofs.
 From RV Require Proofs.OsuWrite Proofs.OsuWhole.
+From RV Require Proofs.RateScaleProofs Proofs.RateWriteCloseBMS Proofs.RateWriteCloseSM Proofs.RateWriteCloseOsu Proofs.RateWriteClosedProofs.
 From RV Require Formats.Qua Formats.QuaSpec Formats.Osu Formats.OsuSpec Formats.SM Formats.SMSpec Formats.SMWriteDom Formats.BMS
   Formats.BMSSpec Proofs.QuaProofs Proofs.SMProofs Proofs.SMWriteWholeFile Proofs.SMWriteWholeEx Timing.Snapper Generated.Tables.
 Import ListNotations.
@@ -338,3 +339,121 @@ Example C13_example_bms_write :
   length (BMS.w_hits Examples.bms_ex) = 6%nat /\ length (BMS.w_holds Examples.bms_ex) = 2%nat /\
   length (BMS.w_bpms Examples.bms_ex) = 2%nat.
 Proof. exact Examples.bms_example. Qed.
+
+(* ===============================================================================================================
+   Closure of the writer domains under rate: the survival theorems with the hypothesis on the SOURCE chart.
+   Uniform scaling changes no position (Proofs/RateScaleProofs.v): for r > 0 the timing map built from the rated tempo
+   rows (every offset / r, every bpm * r, reduced fractions) converts the rated times to the very same positions -- and
+   likewise the re-derived tempo script, its millisecond form, time_of, the tempo active at a time, cumulative beats, the
+   snap-grid test and C10's boolean domains.
+   =============================================================================================================== *)
+Theorem C13_scaling_keeps_positions : forall r, 0 < r -> forall tbl bcos os' os, Forall2 (fun a b => a == b / r) os' os ->
+  TimingMap.tm_snaps tbl (map (RateScaleProofs.bco_sc r) bcos) os' = TimingMap.tm_snaps tbl bcos os.
+Proof. exact RateScaleProofs.tm_snaps_sc. Qed.
+Theorem C13_scaling_keeps_script : forall r, 0 < r -> forall tbl l,
+  TimingMap.bco_to_bcs tbl (map (RateScaleProofs.bco_sc r) l) = option_map (map (RateScaleProofs.bcs_sc r)) (TimingMap.bco_to_bcs tbl l).
+Proof. exact RateScaleProofs.bco_to_bcs_sc. Qed.
+Theorem C13_scaling_keeps_beats : forall r, 0 < r -> forall init' init l o' o, init' == init / r -> o' == o / r ->
+  Domain2.beats_at init' (map (RateScaleProofs.bcs_sc r) l) o' == Domain2.beats_at init l o.
+Proof. exact RateScaleProofs.beats_at_sc. Qed.
+
+(* ---- StepMania: C03's exact write domain is closed under rate for every r > 0, hence the survival theorem holds for
+   every mapset of c03_domb (hypothesis on the source, none on the rated mapset) ---- *)
+Theorem C13_sm_domain_closed : forall r s, 0 < r -> SMWriteWholeFile.c03_domb s = true ->
+  SMWriteWholeFile.c03_domb (SMRate.sm_set_rate r s) = true.
+Proof. exact RateWriteCloseSM.c03_domb_rate. Qed.
+Theorem C13_sm_rate_survives_write_closed : forall r s, 0 < r -> SMWriteWholeFile.c03_domb s = true ->
+  exists toks, SM.sm_write SMProofs.live_conf SM.current (SMRate.sm_set_rate r s) = Some toks /\
+    forall txt, SM.match_toks 0 toks txt = true ->
+      exists d, SMSpec.sm_denote txt = Some d /\ SMRate.header_survives r s d /\
+                Forall2 (SMRate.chart_survives r) (SMSpec.d_charts d) (SM.s_maps s) /\
+                SMSpec.forallb2 (fun tag v => match SMSpec.lookup_last tag (SMSpec.d_items d) None with
+                                              | Some x => SMText.text_eqb x v | None => false end)
+                                SMSpec.text_field_tags (SM.s_txt s) = true /\
+                SMRate.tempo_survives r s d.
+Proof. exact RateWriteClosedProofs.sm_rate_survives_write_closed. Qed.
+
+(* ---- BMS: closure of write_dom is FALSE in general (':.3f' of bpm * r: C13_bms_write_dom_rate_refuted, the known finding
+   bpm-3f-rounding seen through rate); it holds under exactly that guard, for r > 0 ---- *)
+Theorem C13_bms_write_dom_rate_refuted :
+  exists c r, 0 < r
+    /\ BMSSpec.write_dom Tables.Tables.snapper_table Tables.Tables.bms.max_keys Tables.Tables.bms.layout_BME [48;49]%Z c = true
+    /\ BMSSpec.write_dom Tables.Tables.snapper_table Tables.Tables.bms.max_keys Tables.Tables.bms.layout_BME [48;49]%Z (BMSRate.bms_chart_rate r c) = false
+    /\ BMSSpec.wf_wchart 0 Tables.Tables.snapper_table Tables.Tables.bms.layout_BME [48;49]%Z (BMSRate.bms_chart_rate r c) = true
+    /\ BMSSpec.tempo_dom Tables.Tables.snapper_table (BMSRate.bms_chart_rate r c) = true
+    /\ forallb BMSSpec.bpm_3f_ok (BMS.w_bpms (BMSRate.bms_chart_rate r c)) = false.
+Proof. exact RateWriteClosedProofs.bms_write_dom_rate_refuted. Qed.
+Theorem C13_bms_domain_closed : forall tbl r, 0 < r -> forall mk lay dflt c, BMSSpec.write_dom tbl mk lay dflt c = true ->
+  forallb BMSSpec.bpm_3f_ok (map (BMSRate.bco_rate r) (BMS.w_bpms c)) = true ->
+  BMSSpec.write_dom tbl mk lay dflt (BMSRate.bms_chart_rate r c) = true.
+Proof. exact RateWriteCloseBMS.bms_write_dom_rate. Qed.
+Theorem C13_bms_rate_survives_write_closed : forall mk lay dflt r c (rd : Q -> BMSText.text),
+  0 < r -> BMSSpec.write_dom Tables.Tables.snapper_table mk lay dflt c = true ->
+  forallb BMSSpec.bpm_3f_ok (map (BMSRate.bco_rate r) (BMS.w_bpms c)) = true ->
+  (forall q, BMSText.parse_decimal (rd q) <> None) ->
+  exists ls l d, BMS.bms_write Tables.Tables.snapper_table lay dflt (BMSRate.bms_chart_rate r c) = Some ls /\
+    BMSSpec.wscript Tables.Tables.snapper_table (BMSRate.bms_chart_rate r c) = Some l /\
+    BMSSpec.bms_denote lay (map (BMSSpec.render_with rd) ls) = Some d /\
+    BMSRate.survives Tables.Tables.snapper_table dflt r c l d.
+Proof. exact (RateWriteClosedProofs.bms_rate_survives_write_closed Tables.Tables.snapper_table Examples.table_ok_live). Qed.
+
+(* BMS charts whose tempo rows are NOT in time order (C05_bms_write_denotes_any_order): write_dom_any is closed under rate
+   under the same guard (sorting commutes with the scaling), and the rated chart survives the write: the tempo changes of
+   the file are the source's rows in time order at time / r with bpm * r *)
+Theorem C13_bms_domain_any_closed : forall tbl r, 0 < r -> forall mk lay dflt c, BMSSpec.write_dom_any tbl mk lay dflt c = true ->
+  forallb BMSSpec.bpm_3f_ok (map (BMSRate.bco_rate r) (BMS.w_bpms c)) = true ->
+  BMSSpec.write_dom_any tbl mk lay dflt (BMSRate.bms_chart_rate r c) = true.
+Proof. exact RateWriteCloseBMS.bms_write_dom_any_rate. Qed.
+Theorem C13_bms_rate_survives_write_any_order : forall mk lay dflt r c (rd : Q -> BMSText.text),
+  0 < r -> BMSSpec.write_dom_any Tables.Tables.snapper_table mk lay dflt c = true ->
+  forallb BMSSpec.bpm_3f_ok (map (BMSRate.bco_rate r) (BMS.w_bpms c)) = true ->
+  (forall q, BMSText.parse_decimal (rd q) <> None) ->
+  exists ls l d, BMS.bms_write Tables.Tables.snapper_table lay dflt (BMSRate.bms_chart_rate r c) = Some ls /\
+    BMSSpec.wscript Tables.Tables.snapper_table (BMSRate.bms_chart_rate r c) = Some l /\
+    BMSSpec.bms_denote lay (map (BMSSpec.render_with rd) ls) = Some d /\
+    BMSRate.survives_any Tables.Tables.snapper_table dflt r c l d.
+Proof. exact (RateWriteClosedProofs.bms_rate_survives_write_any_order Tables.Tables.snapper_table Examples.table_ok_live). Qed.
+
+(* ---- osu: the structural domain write_domain is closed under rate for every r <> 0; the full domain of the whole-file
+   writer theorem also demands that the float printer holds the written numbers, which a rate change can break
+   (C13_osu_wdom6_rate_refuted: 1000 ms / 3).  The survival theorem with the source chart in write_domain keeps exactly
+   that oracle clause, on the rated numbers. ---- *)
+Theorem C13_osu_write_domain_closed : forall r c ut ua, ~ r == 0 -> OsuSpec.write_domain c ut ua = true ->
+  OsuSpec.write_domain (OsuRate.osu_chart_rate r c) ut ua = true.
+Proof. exact RateWriteCloseOsu.osu_write_domain_rate. Qed.
+Theorem C13_osu_wdom6_rate_refuted :
+  exists c r, ~ r == 0 /\ OsuWhole.wdom6 c (Text.t "Re:Zero"%string) [] = true
+    /\ OsuWhole.wdom6 (OsuRate.osu_chart_rate r c) (Text.t "Re:Zero"%string) [] = false
+    /\ OsuSpec.write_domain (OsuRate.osu_chart_rate r c) (Text.t "Re:Zero"%string) [] = true.
+Proof. exact RateWriteCloseOsu.osu_wdom6_rate_refuted. Qed.
+Theorem C13_osu_rate_survives_write_closed : forall (show_num show_inum : Q -> Text.text) (printable iprintable : Q -> bool),
+  (forall q, printable q = true -> Text.parse_dec (show_num q) = Some (Qred q)) ->
+  (forall q, iprintable q = true -> Text.parse_int (show_inum q) = Some (Qfloor q)) ->
+  forall r c ut ua, ~ r == 0 -> OsuSpec.write_domain c ut ua = true ->
+  forallb printable (OsuSpec.wn_numbers (OsuRate.osu_chart_rate r c)) = true -> forallb iprintable (OsuSpec.wi_numbers c) = true ->
+  exists text d, OsuWrite.written show_num show_inum (OsuRate.osu_chart_rate r c) ut ua = Some text /\
+                 OsuSpec.osu_denote text = Some d /\ OsuSpec.wf_osu_text text = true /\ OsuSpec.all_present d = true /\
+                 OsuRateProofs.survives r c d.
+Proof. exact RateWriteCloseOsu.osu_rate_survives_write_closed. Qed.
+Theorem C13_osu_rate_survives_write_dec6_closed : forall r c ut ua, ~ r == 0 -> OsuSpec.write_domain c ut ua = true ->
+  forallb OsuWhole.dec6_printable (OsuSpec.wn_numbers (OsuRate.osu_chart_rate r c)) = true ->
+  exists text d, OsuWhole.written6 (OsuRate.osu_chart_rate r c) ut ua = Some text /\
+                 OsuSpec.osu_denote text = Some d /\ OsuSpec.wf_osu_text text = true /\ OsuSpec.all_present d = true /\
+                 OsuRateProofs.survives r c d.
+Proof. exact RateWriteCloseOsu.osu_rate_survives_write_dec6_closed. Qed.
+
+(* ---- non-vacuity of the closed forms: the formats' own example charts lie in the SOURCE domains; rates 7/3 (StepMania),
+   2, 1/2, 3/4, 1001/1000 (BMS: guard true), 2 (osu: rated numbers within six decimals) satisfy the remaining guards ---- *)
+Example C13_example_closed :
+  SMWriteWholeFile.c03_domb SMWriteWholeEx.c03_ex_set = true
+  /\ SMWriteWholeFile.c03_domb (SMRate.sm_set_rate (7 # 3) SMWriteWholeEx.c03_ex_set) = true
+  /\ BMSSpec.write_dom Tables.Tables.snapper_table Tables.Tables.bms.max_keys Tables.Tables.bms.layout_BME [48;49]%Z Examples.bms_ex = true
+  /\ forallb (fun r => forallb BMSSpec.bpm_3f_ok (map (BMSRate.bco_rate r) (BMS.w_bpms Examples.bms_ex))) [2; 1 # 2; 3 # 4; 1001 # 1000] = true
+  /\ OsuSpec.write_domain OsuRateProofs.wit_chart (Text.t "Re:Zero"%string) [] = true
+  /\ forallb OsuWhole.dec6_printable (OsuSpec.wn_numbers (OsuRate.osu_chart_rate 2 OsuRateProofs.wit_chart)) = true.
+Proof. exact RateWriteClosedProofs.closed_example. Qed.
+Example C13_example_closed_any_order :
+  BMSSpec.write_dom_any Tables.Tables.snapper_table Tables.Tables.bms.max_keys Tables.Tables.bms.layout_BME [48;49]%Z RateWriteClosedProofs.bms_ex_rev = true
+  /\ BMSSpec.write_dom Tables.Tables.snapper_table Tables.Tables.bms.max_keys Tables.Tables.bms.layout_BME [48;49]%Z RateWriteClosedProofs.bms_ex_rev = false
+  /\ forallb (fun r => forallb BMSSpec.bpm_3f_ok (map (BMSRate.bco_rate r) (BMS.w_bpms RateWriteClosedProofs.bms_ex_rev))) [2; 3 # 4] = true.
+Proof. exact RateWriteClosedProofs.closed_example_any. Qed.
